@@ -21,6 +21,7 @@ import RosuModel.Model.PerfCalcWire
 import RosuModel.Model.SliderEventsWire
 import RosuModel.Model.ManiaPatternWire
 import RosuModel.Model.ConvOsuWire
+import RosuModel.Model.ConvCatchWire
 import RosuModel.Model.SkillWire
 
 open Rosu
@@ -92,6 +93,7 @@ def handle (line : String) : String :=
   | ["MPN", start, span, dist, bl, sm] => ManiaPattern.Wire.handleMPN start span dist bl sm
   | ["OCONV", refl, version, take, cs, ar, clock, sl, objs] => ConvOsu.Wire.handleOCONV refl version take cs ar clock sl objs
   | ["LTT", start, dur, ns] => ConvOsu.Wire.handleLTT start dur ns
+  | ["CCONV", hr, refl, objs] => ConvCatch.Wire.handleCCONV hr refl objs
   | _ => "bad-op"
 
 partial def loop (h : IO.FS.Stream) (out : IO.FS.Stream) : IO Unit := do
